@@ -230,3 +230,8 @@ def finalize_merged(m, tier):
         m["inconclusive"].append("no xarray program was compared after register()")
     if m["counters"].get("imports_probed", 0) < 100:
         m["inconclusive"].append("fewer than 100 imports were probed")
+
+
+RULE += (
+    ' Datasets whose variables share one expression loaded by compute/load/persist; rolling along the second axis.'
+)
